@@ -1,6 +1,7 @@
 import ESV.Comp.FrontW13
 import ESV.Comp.CodegenF0e
 import ESV.Comp.CgFinal
+import ESV.Comp.CgFinal5
 import ESV.Props.C01Backend
 /-
 C01, front end — what is proved about the compiler's front end (the code generator: `ESV.Comp.frontend`, model of
@@ -355,5 +356,63 @@ theorem undefined_label_counterexample :
       [.op ⟨"a", []⟩, .stop (evInvalid "undefined label nowhere")] := by
   rw [undef_graph]
   decide +kernel
+
+/-! ### fragment F5: F4 + macros -/
+
+/-- F5 programs: routines as in F4 with macro calls anywhere, and macros whose bodies are built from the same statements (macro
+calls included: macros may call each other, to any depth the front end accepts in the resolution order `p.macroOrder` it is
+given).  Asked of the macros (`CgProg5`, decidable):
+* the names of the macros are pairwise distinct (the language semantics takes the first macro of a name in source order, the
+  compiler the last one compiled);
+* the variables of a macro are pairwise distinct (`dict(zip(variables, args))` keeps the last value of a repeated variable,
+  the language semantics the first);
+* every user label of a macro body is defined once in it, and a macro body only mentions (`jump`, `call`) labels it defines:
+  the labels of a macro are private to each expansion, in the language semantics (`labelsOfStmts m.body` allocated at the call)
+  as in the compiler (`new_labels`), a label of a routine or of another macro is not visible in it;
+* as everywhere in F0…F5 no plain operation is named `Return` (`cgSimple`): inside a macro `build` turns every op of that name
+  into a jump to the end label, the language semantics only the statement `return;`.
+Not in the model, hence not covered (they stay per program: C05 / C08 / C10): imports, source maps, position marks. -/
+def F5Prog (p : Program) : Prop := CgProg5 p
+
+instance (p : Program) : Decidable (F5Prog p) := by unfold F5Prog; infer_instance
+
+/-- **The code generator is correct on F5**: a macro call means its body inlined (parameters substituted, labels private to each
+expansion, `return` leaves only the macro), for macros defined in any order and calling each other: source semantics of every
+routine ≈ labelled code of the front end. -/
+theorem codegen_correct_F5 (p : Program) (t : Tables) (hp : F5Prog p) (hf : frontend p = .ok t) (j : Nat) (r : Routine)
+    (hj : p.routines[j]? = some r) :
+    ∃ e, (toSrc p).graph.entries[j]? = some (some e) ∧
+      Equivalent (toSrc p).graph.lts (labLTS t.ops) e (labEntry t.ops j) :=
+  (codegen_correct_cg5 p t hp hf j r hj).2
+
+/-- **The compiler is correct on F5**, end to end: source semantics of every routine ≈ SSB machine on the compiled ops. -/
+theorem compile_correct_F5 (p : Program) (res : Result) (hp : F5Prog p) (h : compile p = .ok res) (j : Nat) (r : Routine)
+    (hj : p.routines[j]? = some r) :
+    ∃ e, (toSrc p).graph.entries[j]? = some (some e) ∧
+      Equivalent (toSrc p).graph.lts (Machine.lts ⟨flatten (conv res.ops)⟩) e (Machine.entry ⟨flatten (conv res.ops)⟩ j) := by
+  obtain ⟨t, hf, _, _, hb⟩ := compile_backend_equiv p res (frontGuard_of_cg5 p hp) h
+  obtain ⟨hlt, e, he, h1⟩ := codegen_correct_cg5 p t hp hf j r hj
+  exact ⟨e, he, h1.trans (hb j hlt)⟩
+
+/-- F4 programs are F5 programs -/
+theorem F5Prog_of_F4 (p : Program) (h : F4Prog p) : F5Prog p := by
+  obtain ⟨hm, hseq, hall, hnd, hml⟩ := h
+  refine ⟨hseq, fun r hr => cgStmts_mono (by decide) r.body (hall r hr), hnd, hml, by rw [hm]; exact List.nodup_nil, fun m hm' => ?_⟩
+  rw [hm] at hm'; cases hm'
+
+/-- non-vacuity: `macro m2(%y, %z) { m1(%y); b(%z); m1(%z); }  macro m1(%x) { §l; a(%x); if (Branch 1) { return; } jump @l; }
+def 0 { m2(1, 2); §l; c(); m1(3); jump @l; }` (a macro defined after its use, a nested call, a label `l` private to each
+expansion and a label `l` of the routine, `return` inside a macro) -/
+def exF5 : Program :=
+  ⟨[⟨"m2", ["y", "z"], .cons (.macroCall "m1" [.const "y"]) (.cons (.op "b" [.const "z"]) (.cons (.macroCall "m1" [.const "z"]) .nil))⟩,
+    ⟨"m1", ["x"], .cons (.label "l") (.cons (.op "a" [.const "x"])
+      (.cons (.ite false [⟨false, "Branch", [.int 1]⟩] (.cons .ret .nil) .nil false .nil) (.cons (.jump "l") .nil)))⟩],
+   ["m1", "m2"],
+   [⟨some 0, "r0", none, .cons (.macroCall "m2" [.int 1, .int 2]) (.cons (.label "l") (.cons (.op "c" [])
+      (.cons (.macroCall "m1" [.int 3]) (.cons (.jump "l") .nil))))⟩]⟩
+
+example : F5Prog exF5 := by decide
+example : ¬ F4Prog exF5 := by decide
+example : compiles exF5 = true := by decide
 
 end ESV.C01Frontend
